@@ -18,9 +18,17 @@ OBLIGATIONS = {
               'confirm': version.o10_3_confirm, 'witness_ok': version.o10_3_witness_ok},
     'O7.2': {'engine': 'B', 'title': 'overlapping compaction inputs: superset of the overlapping files, closed under level-0 range expansion', 'run': version.o7_2_overlapping_inputs,
              'confirm': version.o7_2_confirm, 'witness_ok': version.o7_2_witness_ok},
+    'O7.3': {'engine': 'B', 'title': 'boundary files: no user key is split between compaction inputs and the rest of the level', 'run': version.o7_3_boundary_inputs,
+             'confirm': version.o7_3_confirm, 'witness_ok': version.o7_3_witness_ok},
+    'O7.4a': {'engine': 'B', 'title': 'some_file_overlaps_range equals the linear-scan oracle', 'run': version.o7_4a_some_file_overlaps,
+              'confirm': version.o7_4a_confirm, 'witness_ok': version.o7_4a_witness_ok},
+    'O7.4b': {'engine': 'B', 'title': 'is_base_level_for_key: true iff no deeper level contains the user key (ascending keys)', 'run': version.o7_4b_base_level,
+              'confirm': version.o7_4b_confirm, 'witness_ok': version.o7_4b_witness_ok},
+    'O7.4c': {'engine': 'B', 'title': 'memtable output level never holds or passes an overlapping file', 'run': version.o7_4c_pick_level,
+              'confirm': version.o7_4c_confirm, 'witness_ok': version.o7_4c_witness_ok},
 }
 
 PROPERTIES = {
-    'C07': {'obligations': ['O7.1', 'O7.2']},
+    'C07': {'obligations': ['O7.1', 'O7.2', 'O7.3', 'O7.4a', 'O7.4b', 'O7.4c']},
     'C10': {'obligations': ['O7.1', 'O1.3', 'O10.3']},
 }
